@@ -56,7 +56,9 @@ CHECK = {
     "lean_modules": ["P3R.Props.C04", "P3R.Props.C04Full", "P3R.Props.C04Packed", "P3R.Witness.C04", "P3R.Props.C11P",
                      "P3R.Props.C04Gen", "P3R.Props.C10Gen", "P3R.Witness.C04Gen",
                      "P3R.Props.C04Sched", "P3R.Witness.C04Sched",
-                     "P3R.Props.C04SchedBus", "P3R.Witness.C04SchedBus"],
+                     "P3R.Props.C04SchedBus", "P3R.Witness.C04SchedBus",
+                     "P3R.Props.C04SchedWF", "P3R.Witness.C04SchedWF",
+                     "P3R.Props.C04SchedCols", "P3R.Witness.C04SchedCols"],
     "theorems": ["P3R.C04.readers_agree", "P3R.C04.row_sat_add", "P3R.C04.row_sat_mul", "P3R.C04.row_sat_bool",
                  "P3R.C04.row_sat_muladd", "P3R.C04.row_sat_horner", "P3R.C04.accepted_alu_sat_partial", "P3R.C04.const_not_bound",
                  # composition: balanced bus + single creator (C09) + row constraints on cells => a satisfying assignment exists
@@ -93,13 +95,28 @@ CHECK = {
                  "P3R.C04.tupleNet_busOf", "P3R.C04.step_all_net", "P3R.C04.schedBus_equiv",
                  "P3R.C04.scheduled_accepted_sat_bus", "P3R.C04.scheduled_accepted_sat_D1",
                  "P3R.Witness.C04Sched.bus_ok", "P3R.Witness.C04Sched.creators_ok", "P3R.Witness.C04Sched.scheduled_accepted_sat_nonvacuous",
+                 # the lane-0 discipline SchedWF DERIVED from the model of compute_schedule for every op list (Props/C04SchedWF):
+                 # splitChains invariant, fill_row / placeChain / chain-fold positional invariants, main theorems without the hypothesis
+                 "P3R.C04.wf_append_benign", "P3R.C04.wf_snoc", "P3R.C04.fillRow_ext", "P3R.C04.fillRow_aligned", "P3R.C04.fillRow_len",
+                 "P3R.C04.splitChains_good", "P3R.C04.push_fill", "P3R.C04.placeChain_wf", "P3R.C04.chainsFold_wf",
+                 "P3R.C04.computeSchedule_wf", "P3R.C04.scheduled_accepted_sat_bus'", "P3R.C04.scheduled_accepted_sat_D1'",
+                 "P3R.Witness.C04Sched.wf_derived", "P3R.Witness.C04Sched.sched2_eq", "P3R.Witness.C04Sched.wf2_derived",
+                 "P3R.Witness.C04Sched.wf2_chain_start", "P3R.Witness.C04Sched.wf2_chain_step",
+                 "P3R.Witness.C04Sched.wf_clause_not_trivial", "P3R.Witness.C04Sched.scheduled_accepted_sat_nonvacuous'",
+                 # K-valued index / multiplicity columns of aluInteractions on the scheduled matrix vs the integer multiplicities (Props/C04SchedCols):
+                 # row reading, images of single-op lanes and of lane 0 of a packed row, hpk derived from the scheduler's K-level tests below the characteristic
+                 "P3R.C04.aluInteractions_prepRow", "P3R.C04.opStep_net", "P3R.C04.lane_op_image", "P3R.C04.lane_sep_zero",
+                 "P3R.C04.entryCols_packed_keep", "P3R.C04.entryCols_packed_last", "P3R.C04.lane_packed_image",
+                 "P3R.C04.natK_inj_below", "P3R.C04.intCast_zero_below", "P3R.C04.hpk_of_tested", "P3R.C04.scheduled_accepted_sat_bus''",
+                 "P3R.Witness.C04Sched.prepBus_ok", "P3R.Witness.C04Sched.slots_inj", "P3R.Witness.C04Sched.mults_faithful",
+                 "P3R.Witness.C04Sched.row0_lane1_image", "P3R.Witness.C04Sched.scheduled_accepted_sat_nonvacuous''",
                  # non-primitive rows (control part of the Poseidon circuit tables): what an accepted window implies about chaining,
                  # Merkle placement and the index accumulator, and what it leaves free (the known findings F-C08-5*, F-C11-P1)
                  "P3R.C11P.spongeChain_iff", "P3R.C11P.merklePlace_iff", "P3R.C11P.arity4Place_iff", "P3R.C11P.generic_window_iff",
                  "P3R.C11P.accChain2_iff", "P3R.C11P.accChain4_iff", "P3R.C11P.generic_chain_start_free", "P3R.C11P.compact_start_iff"],
     "run": c04_run,
     "trusted_base": ["ideal STARK/LogUp: an accepted proof implies row constraints hold on some committed trace and the WitnessChecks bus is balanced as a signed multiset (DESIGN §2)"],
-    "assumptions": ["the Lean composition theorem holds for every extension degree D >= 1 (accepted_sat_gen: cells in the base field, D per operand, bus tuples (slot, v_0..v_{D-1}), coefficient-wise row constraints, relations in the extension ring L generated by a root alpha of the ALU's multiplication kind — KindRoot; accepted_sat is its D = 1 instance, accepted_sat_of_gen); accepted_sat(_gen) speaks about single-step Horner rows of the unscheduled abstract trace; the SCHEDULED table is covered by scheduled_accepted_sat_bus (Props/C04Sched, C04SchedBus): for sched = computeSchedule preps lanes kmax, the concrete preprocessed matrix prepRow = scheduledPrepRows (zero rows up to height H), ANY main-trace row function, (a) all of aluConstraints D lanes kmax kind vanishing on every window (r, r+1 mod H) and (b) the packed bus schedBus (other tables' cells + per scheduled entry what the table declares: packed rows send ONE b tuple with the summed multiplicity and nothing for the silent intermediate outputs) balanced as a signed multiset of D-tuples imply an assignment in the extension ring satisfying every op (single ops in every lane, chain starts after a separator via the F22 constraint, packed rows of every arity via C11.packed_window_sound_gen at ring level, cover by C11.computeSchedule_cover, bus by packed_tuple_net_gen + bus_single_valued_gen); its explicit hypotheses that are NOT derived: the lane-0 discipline SchedWF of the schedule (Horner entries only on lane 0 below row 0, predecessor = previous chain entry or separator, packed arity in 2..K_max — true of compute_schedule by construction, checked by `decide` on the witness, not yet proved for every op list from computeSchedule), the selector columns of op j encode its kind (PrepSel, = the 12->13 column conversion of common.rs), the integer-level reading hpk of the scheduler's two tests (equal b slot, intermediate out multiplicity 0; the K-valued columns b_idx / mult_out agree with it when slot indices and read counts stay below the characteristic), multiplicities are integers (the field-valued multiplicity columns of aluInteractions are their images), at most one creator per slot over the unpacked cells (C09.one_creator up to the schedule's permutation), MUL_ADD / HORNER ops carry a c operand; the row selector is one non-zero value `sel` (one-hot selectors of the preprocessed trace; window_lane_blocks ties the constraint vectors to aluConstraints); accepted_sat(_gen) assumes no ALU operand is off the bus (role `skip`; 0 of 36k generated rows in the C09 run) and that a Const row's cells denote the circuit's constant (false today: finding F4); the permutation rounds of the Poseidon tables are uninterpreted (control part modelled in Model/PoseidonCtl, tied by C11's run); recompose rows carry no constraint (F5b)"],
+    "assumptions": ["the Lean composition theorem holds for every extension degree D >= 1 (accepted_sat_gen: cells in the base field, D per operand, bus tuples (slot, v_0..v_{D-1}), coefficient-wise row constraints, relations in the extension ring L generated by a root alpha of the ALU's multiplication kind — KindRoot; accepted_sat is its D = 1 instance, accepted_sat_of_gen); accepted_sat(_gen) speaks about single-step Horner rows of the unscheduled abstract trace; the SCHEDULED table is covered by scheduled_accepted_sat_bus (Props/C04Sched, C04SchedBus): for sched = computeSchedule preps lanes kmax, the concrete preprocessed matrix prepRow = scheduledPrepRows (zero rows up to height H), ANY main-trace row function, (a) all of aluConstraints D lanes kmax kind vanishing on every window (r, r+1 mod H) and (b) the packed bus schedBus (other tables' cells + per scheduled entry what the table declares: packed rows send ONE b tuple with the summed multiplicity and nothing for the silent intermediate outputs) balanced as a signed multiset of D-tuples imply an assignment in the extension ring satisfying every op (single ops in every lane, chain starts after a separator via the F22 constraint, packed rows of every arity via C11.packed_window_sound_gen at ring level, cover by C11.computeSchedule_cover, bus by packed_tuple_net_gen + bus_single_valued_gen); the lane-0 discipline SchedWF of the schedule (Horner entries only on lane 0 below row 0, predecessor = previous chain entry or separator, packed arity in 2..K_max) is DERIVED from the model of compute_schedule for every op list, lanes >= 1 and K_max (computeSchedule_wf, Props/C04SchedWF: invariants of splitChains / fill_row / the chain loop; scheduled_accepted_sat_bus' has no SchedWF hypothesis); the integer-level reading hpk of the scheduler's two tests is DERIVED (hpk_of_tested, scheduled_accepted_sat_bus'', Props/C04SchedCols) from the per-op column encoding PrepBus (index columns = natK slot, multiplicity columns = images of eventMult; = what common.rs writes, read not modelled) when b slots have distinct images and non-zero out multiplicities non-zero images (natK_inj_below / intCast_zero_below: slot indices and read counts below the characteristic); aluInteractions on a row of the scheduled matrix is read entry by entry (aluInteractions_prepRow) and its tuples on single-op lanes / lane 0 of a packed row are the K-images of the integer interactions (lane_op_image, lane_packed_image: ONE b tuple with the image of the summed multiplicity, last step's out); its explicit hypotheses that are NOT derived: the images of the packed EXTRA tuples (later steps' (a, c) lookups) and the transfer of a K-valued balance to the integer tuple balance are not proved (hbal stays on integer multiplicities), the selector columns of op j encode its kind (PrepSel, = the 12->13 column conversion of common.rs), the integer-level reading hpk of the scheduler's two tests (equal b slot, intermediate out multiplicity 0; the K-valued columns b_idx / mult_out agree with it when slot indices and read counts stay below the characteristic), multiplicities are integers (the field-valued multiplicity columns of aluInteractions are their images), at most one creator per slot over the unpacked cells (C09.one_creator up to the schedule's permutation), MUL_ADD / HORNER ops carry a c operand; the row selector is one non-zero value `sel` (one-hot selectors of the preprocessed trace; window_lane_blocks ties the constraint vectors to aluConstraints); accepted_sat(_gen) assumes no ALU operand is off the bus (role `skip`; 0 of 36k generated rows in the C09 run) and that a Const row's cells denote the circuit's constant (false today: finding F4); the permutation rounds of the Poseidon tables are uninterpreted (control part modelled in Model/PoseidonCtl, tied by C11's run); recompose rows carry no constraint (F5b)"],
 }
 
 MANIFEST_ENTRY = {
